@@ -28,10 +28,16 @@ def const_range(e):
     return None
 
 
+ROOT_VARS = ("si",)   # user variables that play the role of the matched value (`match si { .. }`)
+
+
 def find_self_fields(e, depth=0):
     """the chain of (variant, field index, type) projections from the matched `self` down to
     the leaf that this value reads, e.g. [('ADD','2','ast::ImmOrReg<5>'), ('Imm','0','ast::Offset<i16, 5>')]"""
-    e = _unwrap_var(e)
+    while isinstance(e, tuple) and e and e[0] == "var":
+        if e[1] in ROOT_VARS:
+            return []
+        e = e[2]
     if not isinstance(e, tuple) or depth > 25:
         return None
     if e[0] == "field" and isinstance(e[1], tuple) and e[1][0] == "downcast":
@@ -264,3 +270,164 @@ def _field_sources(b, fop, pos, arm_target):
     if an and an.startswith("ast::ImmOrReg") and fs:
         return [leaf(fs[0], None, wrap=u[2][1])]
     return [leaf(u, None)]
+
+
+# ------------------------------------------------------------------------------------------
+ASM = "ast::asm::AsmInstr"
+
+
+def _operand_src(e):
+    """classify one constructor operand of an alias/disassembly row"""
+    u = _unwrap_var(e)
+    if u[0] == "const":
+        return ("const", u[1])
+    an, fs = _agg_name(u)
+    if an == "ast::Reg" and not fs:
+        return ("reg", u[2][1])
+    if an and an.startswith("ast::ImmOrReg") and fs:
+        return ("wrap", u[2][1], _operand_src(fs[0]))
+    if an and an.startswith("ast::PCOffset") and fs:
+        return ("pcwrap", u[2][1], _operand_src(fs[0]))
+    if u[0] == "call" and (u[1] or "").endswith("::new_trunc") and u[2]:
+        iv = interval(u[2][0])
+        if iv and iv[0] == iv[1]:
+            return ("trunc", iv[0], u[4])
+    r = repr(u)
+    if "asm::replace_pc_offset" in r:
+        # Ok value of replace_pc_offset(off, pc, sym)?
+        def find_call(x):
+            x = _unwrap_var(x)
+            if isinstance(x, tuple):
+                if x[0] == "call" and (x[1] or "") == "asm::replace_pc_offset":
+                    return x
+                for y in x[1:]:
+                    if isinstance(y, tuple):
+                        if y and isinstance(y[0], str):
+                            f = find_call(y)
+                            if f:
+                                return f
+                        else:
+                            for z in y:
+                                f = find_call(z)
+                                if f:
+                                    return f
+            return None
+        c = find_call(u)
+        if c:
+            chain = find_self_fields(c[2][0])
+            pc = _unwrap_var(c[2][1])
+            sym = _unwrap_var(c[2][2])
+            while sym[0] in ("ref", "deref"):
+                sym = _unwrap_var(sym[1])
+            ok = pc[0] == "arg" and pc[2] == "pc" and sym[0] == "arg" and sym[2] == "sym"
+            if chain and ok:
+                return ("pcoff", int(chain[-1][1]))
+            return ("pcoff?", r[:100])
+    chain = find_self_fields(u)
+    if chain and u[0] == "field":
+        if len(chain) == 1:
+            return ("same", int(chain[0][1]))
+        return ("same", int(chain[0][1]), tuple(c[0] for c in chain[1:]))
+    return ("unknown", r[:120])
+
+
+def alias_rows(F):
+    """[{asm, sim, fields}] for every arm of AsmInstr::into_sim_instr"""
+    b = F.bodies.get("asm::<impl ast::asm::AsmInstr>::into_sim_instr")
+    if b is None:
+        raise TableError("AsmInstr::into_sim_instr not found")
+    rows = []
+    for bi, si, s in b.stmts():
+        if s["k"] == "assign" and s["rv"]["k"] == "agg" and s["rv"].get("adt") == SIM:
+            v, _ = _case_of(F, b, bi, ASM)
+            rows.append({"asm": v, "sim": s["rv"]["variant"], "line": s["line"],
+                         "fields": [_operand_src(b.expr_of_operand(f, depth=14)) for f in s["rv"]["fields"]]})
+    return rows
+
+
+def disasm_rows(F):
+    """[{sim, guard, asm, fields}] for every arm of try_disassemble_line"""
+    b = F.bodies.get("ast::asm::try_disassemble_line")
+    if b is None:
+        raise TableError("try_disassemble_line not found")
+    rows = []
+    for bi, si, s in b.stmts():
+        if s["k"] == "assign" and s["rv"]["k"] == "agg" and s["rv"].get("adt") == ASM:
+            sim = None
+            guards = []
+            for ex, lo, hi in panics.dominating_conditions(b, bi):
+                u = _unwrap_var(ex)
+                if u[0] == "discr" and lo is not None and lo == hi:
+                    chain = find_self_fields(u[1])
+                    if not chain:
+                        sim = variant_names(F, SIM)[lo]
+                    else:
+                        t = chain[-1][2] or ""
+                        if t.startswith("ast::ImmOrReg"):
+                            guards.append(("sub", ["Imm", "Reg"][lo]))
+                        elif t == "ast::Reg":
+                            guards.append(("reg", variant_names(F, "ast::Reg")[lo]))
+                elif u[0] == "call" and (u[1] or "").endswith("Offset::<OFF, N>::get") and lo is not None and lo == hi:
+                    guards.append(("vect", lo))
+            fields = []
+            for f in s["rv"]["fields"]:
+                fields.append(_operand_src(b.expr_of_operand(f, depth=14)))
+            rows.append({"sim": sim, "guards": guards, "asm": s["rv"]["variant"], "fields": fields, "line": s["line"], "block": bi})
+    return rows
+
+
+def word_len_rows(F):
+    b = F.bodies.get("asm::<impl ast::asm::Directive>::word_len")
+    if b is None:
+        raise TableError("Directive::word_len not found")
+    names = variant_names(F, "ast::asm::Directive")
+    out = {}
+    for (bi, si, rv) in b.defs().get(0, []):
+        v = None
+        for ex, lo, hi in panics.dominating_conditions(b, bi):
+            u = _unwrap_var(ex)
+            if u[0] == "discr" and lo is not None and lo == hi and find_self_fields(u[1]) == []:
+                v = names[lo]
+        e = b.expr_of_call(rv, 12, "u16") if si == "term" else b.expr_of_rvalue(rv, 12)
+        u = _unwrap_var(e)
+        if u[0] == "const":
+            out[v] = ("const", u[1])
+        elif u[0] == "call" and (u[1] or "").endswith("Offset::<OFF, N>::get"):
+            out[v] = ("operand-value",)
+        elif u[0] == "field" and u[1][0] == "bin" and u[1][1] == "AddWithOverflow":
+            a, c = _unwrap_var(u[1][2]), interval(u[1][3])
+            if a[0] == "cast" and "String::len" in repr(a[2]) and c == (1, 1):
+                out[v] = ("strlen+1",)
+            else:
+                out[v] = ("unknown", repr(u)[:100])
+        else:
+            out[v] = ("unknown", repr(u)[:100])
+    return out
+
+
+def write_directive_rows(F):
+    """per Directive variant the multiset of block-writing calls in ObjBlock::write_directive"""
+    b = F.bodies.get("asm::ObjectFile::new::ObjBlock::write_directive")
+    if b is None:
+        raise TableError("ObjBlock::write_directive not found")
+    names = variant_names(F, "ast::asm::Directive")
+    out = {n: [] for n in names}
+    for bi, t, callee, raw in b.calls():
+        c = callee or ""
+        kind = None
+        if c.endswith("ObjBlock::push"):
+            kind = "push"
+        elif c.endswith("ObjBlock::shift"):
+            kind = "shift"
+        elif c.endswith("Extend<u16>>::extend") and "ObjBlock" in c:
+            kind = "extend"
+        if kind is None:
+            continue
+        v = None
+        for ex, lo, hi in panics.dominating_conditions(b, bi):
+            u = _unwrap_var(ex)
+            if u[0] == "discr" and lo is not None and lo == hi and find_self_fields(u[1]) == []:
+                v = names[lo]
+        arg = _unwrap_var(b.expr_of_operand(t["args"][1], depth=14))
+        out.setdefault(v, []).append((kind, arg, t["line"]))
+    return out
